@@ -7,16 +7,39 @@ import random, hashlib, collections, os
 import mtlib
 from vlib import Oracle
 
-THEOREMS = None
+THEOREMS = ["C13_write_order", "C13_no_reuse_parametric", "C13_ring_window", "C13_no_reuse_legacy", "C13_no_reuse_lz4f",
+            "C13_generated_layer_consistent", "C13_reuse_if_NB_is_2_refuted", "C13_reuse_if_PB_is_2_refuted",
+            "C13_reuse_if_writer_queue_is_2_refuted", "C13_depth1_deadlock", "C13_inorder_once", "C13_sequential_equiv",
+            "C13_sequential_equiv_legacy", "C13_sequential_equiv_lz4f", "C13_tpool_compress_never_full",
+            "C13_waiters_homogeneous", "C13_never_full_legacy", "C13_never_full_lz4f"]
 ORACLES = ["mt"]
-CORRESPONDENCE = ["WriteReg.arrive model == LZ4IO_checkWriteOrder (expectedRank, capacity, totalCSize, bytes written by each call, every slot of the descriptor array)"]
-RULE = ("wr: arrival orders of n blocks (n in 1..700: identity, reversed, rank 0 last, random, bounded-window shuffle, "
-        "plus malformed sequences with duplicate/missing ranks for the correspondence only); non-trivial = at least one block stored out of order; "
-        "distinct = distinct (order, sizes) scripts")
-TRUSTED = ["hand-written models Model/WriteReg.v, Model/TPool.v, Model/Pipeline.v tied by the comparisons above"]
-ASSUMPTIONS = ["mutex-protected sections are atomic; code between synchronisation operations only touches thread-local data and the buffers it owns",
+CORRESPONDENCE = [
+    "WriteReg.arrive model == LZ4IO_checkWriteOrder (expectedRank, capacity, totalCSize, bytes written by each call, every slot of the descriptor array)",
+    "Pipeline.pstep model accepts every schedule observed on the real thread pool + lz4io pipelines under the scheduler shim, with identical step-indexed event traces (submit/start/end of every job with kind, index and buffer slots; write of rank r)",
+    "schedules generated from the model (adversarial strategies) are followed by the real code under the scheduler shim, with identical event traces and the sequential output",
+    "TPool_create arguments and ring sizes of the real run == generated constants (Gen/TPoolSites.v, Gen/Consts.v)",
+]
+RULE = ("wr: arrival orders of n blocks (n in 1..700: identity, reversed, rank 0 last, random, bounded-window shuffle, pairs, "
+        "plus malformed sequences with duplicate/missing ranks for the correspondence only); non-trivial = at least one block stored out of order. "
+        "e2e: files spanning 2..12 jobs (4 MB chunks / 8 MB legacy blocks, exact multiples and partial last chunk; random, text, mixed, zero payloads; "
+        "-BD, -B4..7, --content-size, -BX, --no-frame-crc) x -T1..-T8 on the real MT binary vs -T1 / the ST build, decoding by both builds with and without sparse writes. "
+        "shim: the real CLI with threadpool.c driven by the cooperative scheduler (uniform, sticky, slow writer, slow/fast main, starved worker, "
+        "wake-main / wake-not-main policies) and free-running with seeded yield/usleep perturbation; deadlock, ownership violation, wrong bytes or non-termination fail. "
+        "sched: per pipeline (LZ4F/legacy x compress/decode, N in 1..8, ring wrap-around sizes) one seeded real schedule checked against the model and three "
+        "model-generated adversarial schedules replayed on the real code; non-trivial = every case (each has >= 60 scheduling steps); distinct = distinct schedules. "
+        "explore: every interleaving and wake-up choice of the model at the generated constants for small N / job counts (supplement; a witness is replayed on the real code). "
+        "thorough adds a ThreadSanitizer build of the real binary.")
+TRUSTED = ["hand-written models Model/WriteReg.v, Model/TPool.v, Model/Pipeline.v tied by the comparisons above",
+           "scheduler shim harness/c/sched_shim.c (cooperative scheduling of the real pthreads: one runner at a time, step = up to the next mutex release / blocking wait) "
+           "and event hooks harness/c/mt_hooks.c (lz4io.c included unchanged, TPool_create/TPool_submitJob/fread/fwrite observed)",
+           "tools/gen_tpool_sites.py (TPool_create arguments and ring array sizes from clang's JSON AST; fails loudly on an unknown call site)"]
+ASSUMPTIONS = ["mutex-protected sections are atomic; code between synchronisation operations only touches thread-local data and the buffers it owns "
+               "(so interleavings finer than the model's steps are equivalent to one of them); races on other C variables and the hardware memory model are outside the model (TSan run is the only evidence there)",
                "no spurious condition-variable wake-ups (they only re-test a predicate)",
-               "pthread variant of threadpool.c (the Windows completion-port variant is not modelled)"]
+               "pthread variant of threadpool.c (the Windows completion-port variant is not modelled); data are abstract in the pipeline model (block k = [k])",
+               "NOT proved: progress/termination for unbounded N (C13_no_deadlock_full_statement, C13_terminates_full_statement); proved instead: never-full + homogeneous waiters for all N, "
+               "bounded exhaustive exploration as supplement, C13_depth1_deadlock as the negative instance",
+               "decode pipelines: single frame per run in the model; concatenated frames are covered by the end-to-end runs only"]
 
 def build(tier):
     ctx = {"asan": False, "case_timeout": 900, "wr_drv": mtlib.build_wr_drv(),
